@@ -2,7 +2,7 @@ import SqVerif.VNetWFSend
 /-
 L2 — destructive `remote_measure` / `_remove_sim_qubit` preserve well-formedness (C02).
 -/
-namespace SqVerif.VNet
+namespace SqVerif.VNet.WFP
 open List
 
 def rmNode (q : SQ) (r : Reg) (o : Nat) (nd : Node) : Node :=
@@ -647,4 +647,4 @@ theorem wfp_stepMeasure {s : Net} (w : WFp none s) (h : Nat) (ip oc : Bool) :
         rw [stepMeasure_destr hv hact hq hqa hsn hreg]
         exact MeasCtx.wfp' { w := w, hv := hv, ha := ha, hh := hh, hsn := hsn, ho := ho, hq := hq, hr := hr, hrn := hrn }
 
-end SqVerif.VNet
+end SqVerif.VNet.WFP
